@@ -26,6 +26,7 @@ MODULES = [
     ('interval', 'interval.rs', True),
     ('timestamp', 'timestamp.rs', True),
     ('oracle', 'oracle.rs', True),
+    ('twins', '@contracts/kani/twins.rs', True),
 ]
 
 NEWTYPES = {'Date', 'Time', 'Timestamp', 'IntervalYM', 'IntervalDT', 'SqlDate', 'Self'}
@@ -54,6 +55,7 @@ MODULE_IMPORTS = {
                 '    #[allow(unused_imports)] use crate::interval::Sign::{Negative, Positive};\n',
     'timestamp': '    #[allow(unused_imports)] use crate::date::Date;\n    #[allow(unused_imports)] use crate::time::Time;\n'
                  '    #[allow(unused_imports)] use crate::interval::{IntervalDT, IntervalYM};\n',
+    'twins': '',
     'oracle': '    #[allow(unused_imports)] use crate::date::Date as SqlDate;\n    #[allow(unused_imports)] use crate::time::Time;\n'
               '    #[allow(unused_imports)] use crate::timestamp::Timestamp;\n'
               '    #[allow(unused_imports)] use crate::interval::{IntervalDT, IntervalYM};\n',
@@ -586,7 +588,7 @@ def build_unit(repo, contracts=None, extra_files=()):
         unit.add(ex.extra.rstrip('\n'))
         unit.items.append({'item': 'lib :: ghost ' + ex.key, 'kind': 'ghost', 'mode': 'ghost', 'lines': [start, unit.lineno() - 1]})
     for mod, fn, strict in MODULES:
-        path = os.path.join(repo, 'src', fn)
+        path = os.path.join(contracts, '..', fn[1:]) if fn.startswith('@') else os.path.join(repo, 'src', fn)
         entries, extras = load_store(os.path.join(contracts, 'verus', mod + '.vc'))
         emit_module(unit, mod, path, strict, entries, extras)
     # laws: lemma-like exec/proof functions over the contracts
